@@ -518,6 +518,7 @@ func seedOf(name string, n uint64) common.Hash {
 // the quorum uint32(ValidatorThreshold·0.685).
 func NewConfig(name string, v params.YouVersion) (*Config, error) {
 	EnsureParams()
+	ensureVersion(v)
 	yp, ok := params.Versions[v]
 	if !ok {
 		return nil, fmt.Errorf("no protocol version %d", v)
@@ -545,7 +546,7 @@ func tuneWhale(name string, yp *params.YouParams, round uint64, below bool) map[
 		rest += s.stake
 	}
 	seed := seedOf(name, round-yp.SeedLookBack)
-	q := uint32(float64(yp.ValidatorThreshold) * ucon.ValidatorProportionThreshold)
+	q := uint32(RefQuorum(yp.ValidatorThreshold, false))
 	seats := func(w uint64) uint32 {
 		_, _, j := ucon.VrfSortition(whale.VrfSk, seed, 1, uint32(ucon.Precommit), yp.ValidatorThreshold,
 			new(big.Int).SetUint64(w), new(big.Int).SetUint64(w+rest))
@@ -583,6 +584,7 @@ func NewConfigAt(name string, v params.YouVersion, round uint64, stakes map[stri
 // own (view "certstake") instead of the look-back set; certificate votes are then drawn against that set.
 func newConfigAt(name string, v params.YouVersion, round uint64, stakes map[string]uint64, sepCert bool) (*Config, error) {
 	EnsureParams()
+	ensureVersion(v)
 	yp, ok := params.Versions[v]
 	if !ok {
 		return nil, fmt.Errorf("no protocol version %d", v)
@@ -1025,7 +1027,7 @@ func (c *Config) SeatCounts(ri uint32) []uint32 {
 	return out
 }
 
-// Quorum is the protocol's precommit quorum: uint32(ValidatorThreshold·0.685).
+// Quorum is the protocol's precommit quorum: ⌊0.685·ValidatorThreshold⌋ (exact reference, quorum.go).
 func (c *Config) Quorum() uint32 {
-	return uint32(float64(c.CP.ValidatorThreshold) * ucon.ValidatorProportionThreshold)
+	return uint32(RefQuorum(c.CP.ValidatorThreshold, false))
 }
